@@ -214,8 +214,17 @@ def reflect_header():
     return out
 
 
+BUILDS = {}     # exe path -> descriptor, so that a replay can rebuild the same harness from the current tree
+
+
 def hbuild(name, sources, flavour, extra=(), libs=('-lz',), need_reflect=False, link_blf=True):
     """build a harness executable against the flavour's library; cached by content hash"""
+    exe = _hbuild(name, sources, flavour, extra, libs, need_reflect, link_blf)
+    BUILDS[exe] = dict(name=name, sources=list(sources), flavour=flavour, extra=list(extra), libs=list(libs), need_reflect=need_reflect)
+    return exe
+
+
+def _hbuild(name, sources, flavour, extra=(), libs=('-lz',), need_reflect=False, link_blf=True):
     fl = FLAVOURS[flavour]
     lib = vbuild(flavour) if link_blf else ''
     refl = reflect_header() if need_reflect else ''
@@ -639,15 +648,25 @@ def merge_stats(stats):
 
 def absorb(res, sh, prop_prefix=''):
     """fold a Sharded run into a Result: monitor violations, crashes (keyed sanitizer reports), hangs, problems"""
+    def blob(case):
+        b = dict(case=case)
+        try:
+            c = int(case)
+            b['harness'] = BUILDS.get(sh.exe)
+            b['argv'] = [str(x) for x in sh.single_fn(c)]
+            b['env'] = {k: v for k, v in sh.env.items() if k.startswith('VERIF_') and k not in ('VERIF_TMP',)}
+        except (TypeError, ValueError):
+            pass
+        return b
     for key, text, case in sh.viols:
-        res.violation(prop_prefix + key, text, dict(case=case))
+        res.violation(prop_prefix + key, text, blob(case))
     for case, key, rep in sh.crashes:
         i = max(rep.find('ERROR:'), rep.find('runtime error'), 0)
-        res.violation(prop_prefix + key, rep[i:i + 2500], dict(case=case))
+        res.violation(prop_prefix + key, rep[i:i + 2500], blob(case))
     for case, reproduced, text in sh.hangs:
         if reproduced:
             res.violation(prop_prefix + 'hang:' + hang_site(text), 'case %s hangs (reproduced in isolation): %s' % (case, text[-1500:]),
-                          dict(case=case))
+                          blob(case))
         else:
             res.inconclusive.append('watchdog fired at case %s but did not reproduce' % case)
     for p in sh.problems:
@@ -657,3 +676,34 @@ def absorb(res, sh, prop_prefix=''):
 def hang_site(text):
     m = re.search(r'@hangsite (\S+)', text)
     return m.group(1) if m else 'unknown'
+
+
+def replay(path):
+    """re-run the single case recorded in a replay file against the current tree (harness rebuilt from /repo's working tree)"""
+    r = json.load(open(path))
+    b = r.get('replay') or {}
+    h = b.get('harness')
+    if not h or not b.get('argv'):
+        return None
+    exe = hbuild(h['name'], h['sources'], h['flavour'], extra=h.get('extra', ()), libs=tuple(h.get('libs', ('-lz',))), need_reflect=h.get('need_reflect', False))
+    env = san_env(dict(VERIF_TMP=scratch_dir()))
+    env.update(b.get('env', {}))
+    if any(a.startswith('/dev/shm/verif.') or a.startswith('/tmp/') for a in b['argv']):
+        return None     # the case depends on generated input files of the original run
+    print('replaying %s: %s %s' % (r.get('key'), h['name'], ' '.join(b['argv'])))
+    try:
+        p = subprocess.run([exe] + b['argv'], stdout=subprocess.PIPE, stderr=subprocess.PIPE, env=env, timeout=300)
+        out, err, rc = p.stdout.decode(errors='replace'), p.stderr.decode(errors='replace'), p.returncode
+    except subprocess.TimeoutExpired:
+        out, err, rc = '', 'timeout', 77
+    bad = rc not in (0,) or '@viol ' in out
+    for line in out.splitlines():
+        if line.startswith('@viol '):
+            print(line[:1500])
+    if rc != 0:
+        print('exit code %d\n%s' % (rc, err[-3000:]))
+    if bad:
+        print('VIOLATION property=%s replay=%s' % (r.get('property'), path))
+        return EXIT_VIOLATION
+    print('case passes on the current tree')
+    return EXIT_OK
